@@ -217,6 +217,13 @@ def mk_trainer(name, red):
         return learn.KernelSTDP(functional.exp_stdp_post_kernel, functional.exp_stdp_pre_kernel,
                                 {"learning_rate": 1.0, "time_constant": 20.0},
                                 {"learning_rate": -0.5, "time_constant": 15.0}, **k), None
+    if name == "KernelSTDP-mixed":
+        # kernels that take both signs (the stock exponential kernels never do), so that a split into
+        # potentiating / depressing parts made after a batch reduction differs from the per-sample split
+        kp = lambda diff, learning_rate, time_constant, **kw: learning_rate * torch.sin(diff / time_constant)
+        kn = lambda diff, learning_rate, time_constant, **kw: learning_rate * torch.cos(diff / time_constant)
+        return learn.KernelSTDP(kp, kn, {"learning_rate": 1.0, "time_constant": 1.5},
+                                {"learning_rate": -0.5, "time_constant": 1.0}, **k), None
     if name == "DelayAdjustedSTDP":
         return learn.DelayAdjustedSTDP(1.0, -0.5, 20.0, 15.0, **k), None
     if name == "DelayAdjustedSTDPD":
